@@ -10,6 +10,8 @@
    pred <condId> <vexpr…>           -> pred <0|1>               (isPredTo arg (cond value))
    same <vexpr…> | <vexpr…>         -> same <0|1>               (sameData)
    must <sb> <db> <pol> <condId>    -> must <0|1>               (condMustPass)
+   drop <sb> <db> <conds|-> <vexpr…> -> drop D <0|1> J <0|1>    (dropEdge / dropJustified on those of the given
+                                                                 conditions that are predicates to the argument)
 
    vexpr tokens (prefix): call id pred isVal n a1 … an | nil id isEq x | bin id | not id x | load id x
                           | un id | fa id x | ext id isLast t | mi id x | leaf id
@@ -66,6 +68,15 @@ def parseVAll (toks : List String) : Option VExpr :=
   match parseV toks with
   | some (v, []) => some v
   | _ => none
+
+def parseCond (s : String) : Option Cond :=
+  match s.toList with
+  | '+' :: r => (String.ofList r).toNat?.map fun n => (true, n)
+  | '-' :: r => (String.ofList r).toNat?.map fun n => (false, n)
+  | _ => none
+
+def parseConds (s : String) : Option (List Cond) :=
+  if s == "-" then some [] else (s.splitOn ",").mapM parseCond
 
 def showConds (cs : List Cond) : String :=
   if cs.isEmpty then "-" else ",".intercalate (cs.map fun c => (if c.1 then "+" else "-") ++ toString c.2)
@@ -133,6 +144,12 @@ partial def loop (h : IO.FS.Stream) (acc : PAcc) : IO Unit := do
     match sb.toNat?, db.toNat?, parseBool pol, c.toNat? with
     | some sb, some db, some pol, some c =>
       IO.println s!"must {b01 (condMustPass g sb db (pol, c))}"; loop h acc
+    | _, _, _, _ => bad; loop h acc
+  | "drop" :: sb :: db :: cs :: rest =>
+    match sb.toNat?, db.toNat?, parseConds cs, parseVAll rest with
+    | some sb, some db, some cs, some arg =>
+      let cs' := asPredicateTo acc.tbl arg cs
+      IO.println s!"drop D {b01 (dropEdge acc.tbl cs')} J {b01 (dropJustified g acc.tbl sb db cs')}"; loop h acc
     | _, _, _, _ => bad; loop h acc
   | [] => loop h acc
   | _ => bad; loop h acc
